@@ -6,6 +6,7 @@ type inference over literals, constructors, annotations, attribute declarations 
 annotations - is wrapped in ``sorted`` or is one of the reviewed order-insensitive uses
 (membership, set algebra, writes to keys that already exist); ``next(iter(s))`` only on
 singletons; no id(), hash() or random on the compile path.
+Also: the reviewed order-insensitive iteration in branch_update is re-checked against its premise.  
 Not decided: determinism of user-supplied extensions and filters.
 """
 
